@@ -188,5 +188,75 @@ func genCrash(c *Ctx) error {
 			}
 		}
 	}
+	// replica-side shapes: ONE stream frame (handled by processLTXStreamFrame) inside the window
+	type rshape struct {
+		name string
+		run  func(v *vprimary, fork *vprimary) (spec string, after *vprimary)
+	}
+	rshapes := []rshape{
+		{"replica-incremental", func(v, _ *vprimary) (string, *vprimary) { return v.randomCommit(4), v }},
+		{"replica-snapshot-behind", func(v, _ *vprimary) (string, *vprimary) {
+			v.randomCommit(4)
+			v.randomCommit(4)
+			return v.snapshot(), v
+		}},
+		{"replica-snapshot-same", func(v, _ *vprimary) (string, *vprimary) { return v.snapshot(), v }},
+		// the node is ahead of (or forked from) the primary it now follows: the snapshot's TXID is
+		// lower than that of files still in the node's log
+		{"replica-snapshot-ahead", func(_, fork *vprimary) (string, *vprimary) { return fork.snapshot(), fork }},
+		{"replica-snapshot-forked", func(_, fork *vprimary) (string, *vprimary) {
+			fork.randomCommit(4)
+			return fork.snapshot(), fork
+		}},
+		{"replica-tombstone", func(v, _ *vprimary) (string, *vprimary) { return v.tombstone(), v }},
+	}
+	for _, sh := range rshapes {
+		reps := 1
+		if c.Tier == "thorough" {
+			reps = 6
+		}
+		for rep := 0; rep < reps; rep++ {
+			ps := pick(r, []int{512, 1024, 4096})
+			cs := c.Begin()
+			do := func(op string) string { c.Count("op." + strings.SplitN(op, " ", 2)[0]); return cs.Do(op) }
+			v := newVPrimary(r, ps)
+			do("open replica")
+			v.randomCommit(6)
+			v.randomCommit(4)
+			do("sapply " + v.snapshot())
+			fork := v.clone()
+			for i, k := 0, r.Range(2, 4); i < k; i++ {
+				do("sapply " + v.randomCommit(4))
+			}
+			cs.Do(v.refLine())
+			do("state")
+			do("ltx")
+			do("raw")
+			do("crash-begin")
+			spec, after := sh.run(v, fork)
+			res := do("sapply " + spec)
+			do("commit-point")
+			out := do("crash-end")
+			cs.Do(after.refLine())
+			do("state")
+			do("ltx")
+			do("raw")
+			var n int
+			fmt.Sscanf(out, "n=%d", &n)
+			for k := 0; k < n; k++ {
+				pres := do(fmt.Sprintf("crashpoint %d", k))
+				c.Count("crashpoint")
+				if strings.Contains(pres, "open=err") {
+					c.Count("crashpoint.open-error")
+				}
+			}
+			cs.End()
+			c.Count("replica-shape." + sh.name + "." + firstWords(res, 1))
+			c.CountN("shape."+sh.name+".points", n)
+			if n >= 5 && res == "ok" {
+				c.Nontrivial(fmt.Sprintf("%s|%d", sh.name, ps))
+			}
+		}
+	}
 	return nil
 }
